@@ -297,12 +297,32 @@ def model_lines(kind, point, V, Z, I, Y, which, p, m):
             d = sp.Rational(rat(x, point)) * point['s']
             return 'dc {%s}' % d
         return 's {%s}' % x
+    def at_dc(x):
+        """value of an immittance in a dc analysis (s -> 0): 0, a finite value, or None when it is infinite"""
+        x = sp.sympify(x)
+        try:
+            v = sp.limit(x, ssym, 0) if x.has(ssym) else x
+        except CaseTimeout:
+            raise
+        except Exception:
+            return None
+        if v.has(sp.zoo, sp.oo, -sp.oo, sp.nan) or not v.is_finite:
+            return None
+        return v
+    # The netlist components Z and Y are stamped through their admittance.  A model impedance that is (identically, or
+    # in a dc analysis at s = 0) zero is therefore attached as a wire and a zero admittance is left out; an immittance
+    # that is infinite at dc (a series capacitance / a shunt inductance of the model) has no dc netlist form: no comparison.
     if which == 'thev':
-        # a model without series impedance (thevenin() returned a bare V) is a wire, not a 0 ohm "Z" (Y = 1/0)
-        zl = 'W %s ath_' % p if sp.sympify(Z) == 0 else 'Zth_ %s ath_ {%s}' % (p, Z)
+        z0 = at_dc(Z) if kind == 'dc' else (sp.Integer(0) if sp.sympify(Z) == 0 else sp.Integer(1))
+        if z0 is None:
+            raise Inexact('model impedance is infinite at dc: no dc netlist form')
+        zl = 'W %s ath_' % p if z0 == 0 else 'Zth_ %s ath_ {%s}' % (p, Z)
         return ['Vth_ ath_ %s %s' % (m, src(V)), zl]
+    y0 = at_dc(Y) if kind == 'dc' else (sp.Integer(0) if sp.sympify(Y) == 0 else sp.Integer(1))
+    if y0 is None:
+        raise Inexact('model admittance is infinite at dc: no dc netlist form')
     out = ['Ino_ %s %s %s' % (p, m, src(I))]
-    if sp.sympify(Y) != 0:
+    if y0 != 0:
         out.append('Yno_ %s %s {%s}' % (p, m, Y))
     return out
 
